@@ -117,7 +117,7 @@ package models
 //@   property C11
 //@   modifies nothing
 //@   loop range invariant [scanned] -1 <= rangeindex && rangeindex <= len(children) && forall(j, 0, rangeindex+1, children[j] == nil || !hasWork(children[j].status))
-//@   ensures [def] result == forall(j, 0, len(children), children[j] == nil || !hasWork(children[j].status)) // C11: complete iff no node still awaits work
+//@   ensures [def] @C11,C01 result == forall(j, 0, len(children), children[j] == nil || !hasWork(children[j].status)) // C11: complete iff no node still awaits work
 
 // CheckConsistency: the executable check implies the per-node part of the predicate for the
 // node it is called on and (by the recursive call, whose contract is assumed) for its children.
@@ -157,14 +157,14 @@ package models
 //@   loop range invariant [so-far] -1 <= rangeindex && rangeindex <= len(children) && (old(isTree()) ==> len(children) == len(node.children) && forall(j, 0, len(children), children[j] == node.children[j])) && forall(n, *Item, n.status == old(n.status) || (isGot(old(n.status)) && n.status == ItemCompleted)) && (old(isTree()) ==> forall(n, *Item, gdepth(n) <= gdepth(node) ==> n.status == old(n.status)))
 //@   ensures [mono] forall(n, *Item, n.status == old(n.status) || (isGot(old(n.status)) && n.status == ItemCompleted)) // C11: completion marking only ever completes nodes that got children or a redirection
 //@   ensures [above-untouched] old(isTree()) && node != nil ==> forall(n, *Item, gdepth(n) <= gdepth(node) && n != node ==> n.status == old(n.status))
-//@   ensures [local] old(isTree()) && node != nil ==> node.status == ite(isGot(old(node.status)) && forall(j, 0, len(node.children), !hasWork(node.children[j].status)), ItemCompleted, old(node.status)) // C11: declared complete iff no node below still awaits fetching or post-processing
+//@   ensures [local] @C11,C01 old(isTree()) && node != nil ==> node.status == ite(isGot(old(node.status)) && forall(j, 0, len(node.children), !hasWork(node.children[j].status)), ItemCompleted, old(node.status)) // C11: declared complete iff no node below still awaits fetching or post-processing
 
 //@ func (*Item).CompleteAndCheck
 //@   property C11
 //@   modifies Item::status
 //@   ensures [non-seed] i.parent != nil ==> result == false && i.status == old(i.status)
-//@   ensures [result] i.parent == nil ==> result == !hasWork(i.status) // C11: a seed is declared complete iff ...
-//@   ensures [decision] old(isTree()) && i.parent == nil && hasWork(old(i.status)) ==> i.status == ite(isGot(old(i.status)) && forall(j, 0, len(i.children), !hasWork(i.children[j].status)), ItemCompleted, old(i.status))
+//@   ensures [result] @C11,C01 i.parent == nil ==> result == !hasWork(i.status) // C11: a seed is declared complete iff ...
+//@   ensures [decision] @C11,C01 old(isTree()) && i.parent == nil && hasWork(old(i.status)) ==> i.status == ite(isGot(old(i.status)) && forall(j, 0, len(i.children), !hasWork(i.children[j].status)), ItemCompleted, old(i.status))
 //@   ensures [mono] forall(n, *Item, n.status == old(n.status) || (isGot(old(n.status)) && n.status == ItemCompleted))
 
 // (*URL).String: canonical text of a URL (cached); treated as a function of the URL object
